@@ -49,3 +49,45 @@ def overwrite(case, d):
     hasmeta = os.path.exists(os.path.join(path, 'metadata.json'))
     return dict(res=['ok'], same=readme == regen, mentions='metadata.json' in readme, hasmeta=hasmeta,
                 expect_meta=bool(meta_new), listing=sorted(os.listdir(path)))
+
+
+def temp_handle(case, d):
+    """metadata changed through a handle that is not kept (one-liners, a helper returning only
+    `.metadata`): creating / deleting metadata.json must still refresh README.txt"""
+    import gc
+    import os
+    import numpy as np
+    import darr
+    from darr.array import readcodetxt
+    from darr.raggedarray import readcodetxt as rreadcodetxt
+    path = os.path.join(d, 'x.darr')
+    ragged = case['kind'] == 'RaggedArray'
+    if ragged:
+        darr.asraggedarray(path, [[1.5, 2.5], [3.5]])
+        cls, regen = darr.RaggedArray, lambda: rreadcodetxt(darr.RaggedArray(path))
+    else:
+        darr.asarray(path, np.arange(6, dtype='int32').reshape(3, 2))
+        cls, regen = darr.Array, lambda: readcodetxt(darr.Array(path))
+    out = []
+
+    def look(step):
+        readme = open(os.path.join(path, 'README.txt'), encoding='utf-8').read()
+        hasmeta = os.path.exists(os.path.join(path, 'metadata.json'))
+        out.append(dict(step=step, same=readme == regen(), hasmeta=hasmeta, mentions='metadata.json' in readme))
+    try:
+        if case['how'] == 'oneliner':
+            cls(path, accessmode='r+').metadata['fs'] = 44100
+            gc.collect(); look('first key set')
+            cls(path, accessmode='r+').metadata.pop('fs')
+            gc.collect(); look('last key popped')
+        else:
+            def meta_of(p):
+                return cls(p, accessmode='r+').metadata
+            md = meta_of(path)
+            gc.collect()
+            md.update({'a': 1}); look('first key set')
+            md = meta_of(path); gc.collect()
+            md.popitem(); look('last key popped')
+    except Exception as e:
+        out.append(dict(step='error', error=f'{type(e).__name__}: {e}'[:200]))
+    return out
